@@ -191,4 +191,63 @@ theorem rename_roundtrip : renameFt 'f' 't' (renameFt 't' 'f' "t2") = "t2" ∧ r
     renameFt 't' 'f' "t" = "f" ∧ renameFt 't' 'f' "t10" = "f10" ∧ renameFt 't' 'f' "tau" = "tau" ∧
     renameFt 't' 'f' "Power" = "Power" := by decide
 
+/-- `fourier_transform` acts along the named dimension only: the value at the source position `d.dims.map ℓ` (with the
+    transformed axis at output bin `ℓ dim`) is that bin of the (shifted) DFT of THE trace through ℓ — whatever the rank
+    and wherever the dimension sits; every other axis is untouched -/
+theorem ft_spec [Inhabited K] (A : Arith K K) {d r : Data K K} {dim : String} (zff : Nat) (shift : Bool)
+    (ppm : Option K) (tw : Nat → K) (hd : d.Consistent) (hr : d.fourierTransform A dim zff shift ppm tw = .ok r) :
+    let n := (if zff = 0 then 1 else zff) * (d.coord dim).length
+    let h := fun (tr : List K) => let y := dftList A tw n tr; if shift then fftshiftL y else y
+    dim ∈ d.dims ∧ r.values.shape = setAt d.values.shape (d.index dim) n ∧
+    ∀ ℓ : String → Nat, (∀ nm ∈ d.dims, nm ≠ dim → ℓ nm < d.ext nm) → ℓ dim < n →
+      r.values.get (d.dims.map ℓ) = (h (d.trace dim ℓ)).getD (ℓ dim) default := by
+  intro n h
+  unfold Data.fourierTransform at hr
+  split at hr
+  · cases hr
+  · rename_i hdm
+    have hdm : dim ∈ d.dims := by simpa using hdm
+    simp only at hr
+    split at hr
+    · cases hr
+    · split at hr
+      · cases hr
+      · simp only [Except.ok.injEq] at hr
+        subst hr
+        refine ⟨hdm, rfl, ?_⟩
+        intro ℓ hℓ hℓd
+        have hm : d.mapAlong dim h n none = .ok { d with values := mapAxis h n d.values (d.index dim) } := by
+          unfold Data.mapAlong; simp [hdm]
+        exact (mapAlong_spec h n none hd hm).2.2 ℓ hℓ hℓd
+
+/-- the same for `inverse_fourier_transform`: un-shift, inverse DFT and 1/N on the trace through ℓ, nothing else moves -/
+theorem ift_spec [Inhabited K] (A : Arith K K) {d r : Data K K} {dim : String} (zff : Nat) (shift : Bool)
+    (ppm : Option K) (twInv : Nat → K) (hd : d.Consistent)
+    (hr : d.inverseFourierTransform A dim zff shift ppm twInv = .ok r) :
+    let n := (if zff = 0 then 1 else zff) * (d.coord dim).length
+    let h := fun (tr : List K) =>
+      let x := if shift then ifftshiftL tr else tr
+      (dftList A twInv n x).map (fun y => A.div y (A.ofNat n))
+    dim ∈ d.dims ∧ r.values.shape = setAt d.values.shape (d.index dim) n ∧
+    ∀ ℓ : String → Nat, (∀ nm ∈ d.dims, nm ≠ dim → ℓ nm < d.ext nm) → ℓ dim < n →
+      r.values.get (d.dims.map ℓ) = (h (d.trace dim ℓ)).getD (ℓ dim) default := by
+  intro n h
+  unfold Data.inverseFourierTransform at hr
+  split at hr
+  · cases hr
+  · rename_i hdm
+    have hdm : dim ∈ d.dims := by simpa using hdm
+    simp only at hr
+    split at hr
+    · cases hr
+    · split at hr
+      · cases hr
+      · simp only [Except.ok.injEq] at hr
+        subst hr
+        refine ⟨hdm, rfl, ?_⟩
+        intro ℓ hℓ hℓd
+        have hm : d.mapAlong dim h n none = .ok { d with values := mapAxis h n d.values (d.index dim) } := by
+          unfold Data.mapAlong; simp [hdm]
+        exact (mapAlong_spec h n none hd hm).2.2 ℓ hℓ hℓd
+
 end Dnp.C09
